@@ -25,7 +25,7 @@ ENSURES(G_mc < n IMPLIES ((const uint8_t *)dst)[G_mc] == ((const uint8_t *)src)[
    Recording variant: what was compared, over how many bytes, and the answer (P-TAINT). */
 #ifdef CONTRACT_MEMCMP_RECORDING
 #ifdef VERIF_CBMC
-int G_mcmp_last; size_t G_mcmp_n; const void *G_mcmp_a; const void *G_mcmp_b; unsigned G_mcmp_calls;
+int G_mcmp_last; size_t G_mcmp_n; size_t G_mcmp_a; size_t G_mcmp_b; unsigned G_mcmp_calls;
 #endif
 int memcmp(const void *a, const void *b, size_t n)
 REQUIRES(n == 0 || (RD_OK(a, n) && RD_OK(b, n)))
